@@ -15,6 +15,20 @@ def handleRust (op : String) (args : List String) : Option String :=
       let spec := if deriveLabel ident rename = name then r else "err label"
       some (r ++ "\t" ++ spec)
     | _, _ => none
+  | "rs.fields", c :: hs =>
+    -- the named fields of one record (snake) / the tags of one variant (camel), in the order they are printed
+    match (if c = "snake" then some Case.snake else if c = "camel" then some Case.upperCamel else none), hs.mapM strOfHex with
+    | some case, some names =>
+      let fs := emitFields case names []
+      let show1 := fun (p : String × Option String) =>
+        hexOfStr p.1 ++ ":" ++ (match p.2 with | some x => hexOfStr x | none => "none")
+      let r := "ok " ++ " ".intercalate (fs.map show1)
+      -- specification: every field keeps its label and no two fields are one identifier
+      let labelsOk : Bool := fs.map (fun p => deriveLabel p.1 p.2) == names
+      let idents := fs.map fun p => unraw p.1
+      let distinct : Bool := idents.eraseDups.length == idents.length
+      some (r ++ "\t" ++ (if labelsOk && distinct then r else "err label or duplicate"))
+    | _, _ => none
   | "rs.types", [_src] => some "ok\tok"
   -- the emitted items are compiled with the real derive macro in a second stage of the check (`harness/bindcheck`);
   -- the line only carries the program there
